@@ -3,29 +3,37 @@ from . import common, scen, src as S, real as R
 from .frame import Check
 
 
-def run(prop, tier, make_history, n_quick, n_thorough, rule, nontrivial=None):
+_CFG = {}
+
+
+def case(rep, drv, rnd, i, tier):
+    make_history = _CFG[rep.prop]
+    ops = make_history(rnd, rep)
+    v = scen.three_way(rep, drv, ops, 'history %d' % i)
+    rep.count('histories')
+    rep.count('operations', len(ops))
+    for op in ops:
+        rep.count('op:' + op[0] + (':' + op[1] if op[0] == 'query' and op[1] in (
+            'assertz', 'asserta', 'retract', 'retractall', 'az', 'aa', 'rt', 'ra') else ''))
+    if v in ('ok', 'model'):
+        try:
+            res = drv.ask(R.scenario_model(ops, 'reference'))[1:]
+        except common.ModelTimeout:
+            res = []
+        key = scen.norm([list(o[:2]) for o in ops if o[0] != 'query' or o[1] not in ('d0', 'd1', 'd2', 'never', 'p', 'd', 'e', 'seen')]) \
+            + scen.norm(res[-3:])
+        if any(scen.count_answers(r) for o, r in zip(ops, res) if o[0] == 'query'):
+            rep.nontriv(key)
+    if i < 2:
+        rep.sample({'ops': [scen.norm(list(o)) if o[0] != 'load' else 'load:\n' + S.program_text(o[2]) for o in ops[:12]]})
+
+
+def run(prop, tier, make_history, n_quick, n_thorough, rule):
+    from . import par
     n = n_quick if tier == 'quick' else n_thorough
+    _CFG[prop] = make_history
     with Check(prop, tier) as chk:
-        rep = chk.rep
-        rnd = common.rng_for(prop)
-        for i in range(n):
-            ops = make_history(rnd, rep)
-            v = scen.three_way(rep, chk.drv, ops, 'history %d' % i)
-            rep.count('histories')
-            rep.count('operations', len(ops))
-            for op in ops:
-                rep.count('op:' + op[0] + (':' + op[1] if op[0] == 'query' and op[1] in (
-                    'assertz', 'asserta', 'retract', 'retractall', 'az', 'aa', 'rt', 'ra') else ''))
-            if v in ('ok', 'model'):
-                res = chk.drv.ask(R.scenario_model(ops, 'reference'))[1:]
-                key = scen.norm([list(o[:2]) for o in ops if o[0] != 'query' or o[1] not in ('d0', 'd1', 'd2', 'never', 'p', 'd', 'e', 'seen')]) \
-                    + scen.norm(res[-3:])
-                if any(scen.count_answers(r) for o, r in zip(ops, res) if o[0] == 'query'):
-                    rep.nontriv(key)
-            if i < 2:
-                rep.sample({'ops': [scen.norm(list(o)) if o[0] != 'load' else 'load:\n' + S.program_text(o[2]) for o in ops[:12]]})
-            if len(rep.violations) >= 3:
-                break
+        par.run_cases(chk.rep, 'harness.histcheck', 'case', n)
         chk.finish(rule=rule)
 
 
